@@ -439,7 +439,18 @@ func (r *rt) execTemplate(dc decoded, acc *delta, wantSample bool) {
 		}
 	}
 	if wantSample && nontrivial && len(acc.Samples) == 0 && len(s) >= 5 {
-		acc.Samples = append(acc.Samples, map[string]any{"template": s, "results": fmt.Sprintf("%+v", results)})
+		via := map[string]string{}
+		for _, tr := range results {
+			switch {
+			case tr.p != "":
+				via[tr.entry] = "panic"
+			case tr.ok:
+				via[tr.entry] = "ok " + tr.cls
+			default:
+				via[tr.entry] = fmt.Sprintf("error (%d error events) %s", tr.nErr, tr.cls)
+			}
+		}
+		acc.Samples = append(acc.Samples, map[string]any{"template": s, "via": via})
 	}
 }
 
